@@ -1108,13 +1108,14 @@ func captureStackTrace() string {
 	stop := false
 	for i, line := range lines {
 		if isPanic && strings.HasPrefix(line, "panic(") {
-			lines = lines[:i-1]
+			lines = lines[:max(i-1, 0)]
 			break
 		}
 
 		for _, head := range heads {
 			if strings.Contains("machine.(*Machine)."+line+"(", head) {
-				lines = lines[:i-1]
+				// the first line matches when the dump got truncated mid-line
+				lines = lines[:max(i-1, 0)]
 				stop = true
 				break
 			}
